@@ -133,6 +133,10 @@ func (bf *Filter) matches(data []byte) bool {
 	if bf.msgFilterLoad == nil {
 		return false
 	}
+	if len(bf.msgFilterLoad.Filter) == 0 {
+		// Avoid a division by zero; an empty filter matches everything.
+		return true
+	}
 
 	// The bloom filter does not contain the data if any of the bit offsets
 	// which result from hashing the data using each independent hash
@@ -189,7 +193,7 @@ func (bf *Filter) MatchesOutPoint(outpoint *wire.OutPoint) bool {
 //
 // This function MUST be called with the filter lock held.
 func (bf *Filter) add(data []byte) {
-	if bf.msgFilterLoad == nil {
+	if bf.msgFilterLoad == nil || len(bf.msgFilterLoad.Filter) == 0 {
 		return
 	}
 
